@@ -37,6 +37,7 @@ FANOUT = ["Stack", "Fraction", "Label", "UntypedLabel", "Index", "Branch"]
 ALL_KINDS = LEAVES + SINGLE + FANOUT
 
 NAMES = [None, None, "x", "y", "q", "w8"]
+AWKWARD_NAMES = ["entries", "pairsAsDict", "data", "type", "name", "values", "bins", "pairs", "sub:type", "version", "0", "NaN"]
 CATS = ["a", "b", "c", "NaN", "dd"]
 
 
@@ -62,7 +63,11 @@ def wrong_value(d):
         if isinstance(x, (int, float)) and not isinstance(x, bool) and x == x and abs(x) != float("inf"):
             k = int(abs(x) * 8)
             break
-    return [WRONG, "oops", None, [1.0], complex(1.0, 1.0), {"a": 1.0}, complex(0.0, 2.0)][k % 7]
+    import numpy as _np
+
+    return [WRONG, "oops", None, [1.0], complex(1.0, 1.0), {"a": 1.0}, complex(0.0, 2.0),
+            _np.str_("oops"), _np.datetime64("2020-01-01")][k % 9]
+    # (numpy.complex128 is left out: float() of it succeeds with a warning, so a Bag of numbers accepts it)
 
 
 def make_quantity(col):
@@ -155,9 +160,13 @@ def gen_spec(rng, depth, kinds=None, leaf_kinds=None, allow_bag=True):
                     break
         if k == "Index":
             return {"k": "Index", "values": members}
-        return {"k": "Label", "pairs": {"m%d" % i: s for i, s in enumerate(members)}}
+        names = sorted(rng.sample(AWKWARD_NAMES, len(members))) if rng.random() < 0.15 else ["m%d" % i for i in range(len(members))]
+        return {"k": "Label", "pairs": {nm: s for nm, s in zip(names, members)}}
     if k == "UntypedLabel":
-        return {"k": "UntypedLabel", "pairs": {"u%d" % i: sub() for i in range(rng.randint(1, 3))}}
+        n = rng.randint(1, 3)
+        # member names that coincide with parameter names / JSON keys of the library are legal names too
+        names = rng.sample(AWKWARD_NAMES, n) if rng.random() < 0.15 else ["u%d" % i for i in range(n)]
+        return {"k": "UntypedLabel", "pairs": {nm: sub() for nm in sorted(names)}}
     if k == "Branch":
         return {"k": "Branch", "values": [sub() for _ in range(rng.randint(1, 3))]}
     raise ValueError(k)
@@ -236,6 +245,13 @@ def gen_name_matrix_spec(rng):
         first = leaf(False)
         return {"k": "Label", "pairs": {"m0": first, "m1": {"k": first["k"], "q": [rng.choice(NUM_COLS), rng.choice([None, "q"])]}}}
 
+    if rng.random() < 0.25:
+        # a keyed collection whose member names coincide with parameter names / JSON keys of the library
+        names = sorted(rng.sample(AWKWARD_NAMES, rng.randint(1, 3)))
+        if rng.random() < 0.5:
+            return {"k": "UntypedLabel", "pairs": {nm: leaf() for nm in names}}
+        first = leaf(False)
+        return {"k": "Label", "pairs": {nm: {"k": first["k"], "q": [rng.choice(NUM_COLS), rng.choice([None, "q"])]} for nm in names}}
     k = rng.choice(["Bin", "SparselyBin", "CentrallyBin", "IrregularlyBin", "Stack", "Fraction", "Select", "Categorize"])
     q = [rng.choice(NUM_COLS), rng.choice([None, "x", "q"])]
     if k == "Bin":
